@@ -14,7 +14,7 @@ from vlib import core
 
 THEOREMS = ["C18_options", "C18_unknown_names_error", "C18_parse", "C18_variable", "C18_ws_insensitive", "C18_outer_ws",
             "C18_cache_transparent", "C18_cache_transparent_keys", "C18_cache_schedule_independent", "C18_spec", "C18_spec_var",
-            "C18_old_refuted", "C18_accessor_current_locale"]
+            "C18_old_refuted", "C18_accessor_current_locale", "C18_defaulted_uses_requested_locale", "C18_rebind_refuted"]
 PROPS = "theories/Props/C18.v"
 REGISTRY = {
     "level": "proof",
@@ -409,9 +409,14 @@ def runtime_level(ctx, exe):
         raise core.Infra("h_fmt rt failed: rc=%s %s" % (rc, err[-400:]))
     K, T, I, F, A = {}, [], {}, [], []
     pools, numvals = {}, {}
+    XD, JD = [], {}
     for l in out.splitlines():
         p = l.split(" ")
-        if p[0] == "P":
+        if p[0] == "X":
+            XD.append((p[1], p[2], p[3], p[4], dec(p[5]) if len(p) > 5 else ""))
+        elif p[0] == "J":
+            JD[(p[1], p[2], p[3], p[4])] = dec(p[5]) if len(p) > 5 else ""
+        elif p[0] == "P":
             pools[p[1]] = int(p[2])
         elif p[0] == "N":
             numvals[p[1]] = dec(p[2])
@@ -441,7 +446,9 @@ def runtime_level(ctx, exe):
     def same(flavour, got, exp):
         if flavour == "h" and got != "PANIC":
             g = html_text(got)
-            return g == exp or (exp == "" and g.strip() == "")
+            # leptos renders an empty dynamic text node as one space between its `<!>` markers
+            g2 = html_text(got.replace("<!> <!>", "<!><!>"))
+            return g == exp or g2 == exp or (exp == "" and g.strip() == "")
         return got == exp
 
     for k, ln, vi, fl, got in T:
@@ -466,11 +473,38 @@ def runtime_level(ctx, exe):
                 "level": "generated code, after a key whose options ICU4X refuses", "key_text": K[k][0], "locale": ln,
                 "value_id": vi, "observed": got, "icu4x_direct": exp,
                 "history": "td_string!(%s, t_full, ..) = {{ v, time(time_length: full) }} panicked earlier in this process" % ln}))
+    # defaulted keys: the template of the locale the key falls back to, formatted for the requested locale
+    marks = {"EN": "en", "FR": "fr", "CA": "fr-CA", "AR": "ar", "JA": "ja"}
+    n_dflt = n_fell_back = 0
+    for k, req, vi, fl, got in XD:
+        n_dflt += 1
+        text = html_text(got) if (fl == "h" and got != "PANIC") else got
+        src = marks.get(text[:2]) if text[2:3] == "[" else None
+        exp = JD.get((k, src, req, vi)) if src else None
+        rec = {"level": "generated code, defaulted key (fixture harness/h_fmt/locales, fr-CA inherits fr)", "key": k,
+               "requested_locale": req, "template_of_locale": src, "value_id": vi,
+               "flavour": {"s": "td_string!", "d": "td_display!", "h": "td!(..).to_html()"}[fl], "observed": got,
+               "icu4x_direct_for_requested_locale": exp,
+               "explanation": "a formatter in a key the requested locale does not define must format for the requested locale "
+                              "(the locale being rendered) with the options of the template that is shown"}
+        if k[0] in "nc" and numvals.get(str(vi)):
+            rec["value"] = numvals[str(vi)]
+        if src is None or exp is None:
+            findings.append(("spec", rec))
+            continue
+        if src != req:
+            n_fell_back += 1
+        if not same(fl, got, exp):
+            findings.append(("spec", rec))
+    if not XD or n_fell_back < len(XD) // 4:
+        raise core.Infra("the defaulted-key fixture of h_fmt no longer exercises defaulting (%d of %d)" % (n_fell_back, len(XD)))
+    n_cmp += n_dflt
     direct_cases = []
     fseen = {}
     for tokens, ln, vi, fl, got in F:
         fseen.setdefault(tokens, []).append((ln, vi, fl, got))
-    return findings, {"rt_comparisons": n_cmp, "rt_keys": len(K), "value_pools": pools, "numeric_inputs": numvals}, K, fseen, byfmt
+    return findings, {"rt_comparisons": n_cmp, "rt_keys": len(K), "value_pools": pools, "numeric_inputs": numvals,
+                      "defaulted_key_comparisons": n_dflt, "defaulted_key_comparisons_that_fell_back": n_fell_back}, K, fseen, byfmt
 
 
 def macro_level(exe, fseen, byfmt, numvals=None):
@@ -732,7 +766,9 @@ def run(ctx):
                 "converts them the documented way: From for integers, try_from_f64(v, Floating) for floats; dates incl. epoch, leap days, "
                 "years -1/0/1/9999, as Date and as DateTime; times incl. midnight, 23:59:59, 23:59:60, nanoseconds; lists of length 0..6 "
                 "with empty strings, as Vec<&str> and Vec<String>) x "
-                "td_string!/td_display!/td!, every option combination through td_format_string!/td_format_display!, each "
+                "td_string!/td_display!/td!; a load_locales! fixture (en default, fr, fr-CA inherits fr, ar, ja) whose formatter keys of "
+                "every family are absent / null / inherited in some locales, each read for every locale and compared with the "
+                "shown template's literal parts around a direct ICU4X call for the REQUESTED locale; every option combination through td_format_string!/td_format_display!, each "
                 "compared with a direct ICU4X call using the options the parser selected; %d rounds of %d random cache "
                 "operations executed by one thread and by 8 threads started together (6+ blocks of 8 first uses of one key per "
                 "round), fresh process each. non-trivial = has arguments / mutated / distinct (formatter, locale, value)"
